@@ -15,6 +15,8 @@ class ObligationResult:
 
     @property
     def name(self):
+        if self.stream_model == 'ghost':
+            return self.ob.name
         return '%s@%s/%s' % (self.qual.split(':')[0].replace('construct.', ''), self.stream_model, self.ob.name)
 
     @property
